@@ -159,7 +159,11 @@ func (x *Exec) applyContract(st *State, in ssa.Instruction, tgt *target, recv *v
 			if len(parts) > 1 {
 				nm = fmt.Sprintf("%s.%d", nm, pi)
 			}
-			o := &Obl{Name: x.prefix + "/pre/" + site + "/" + nm, Kind: "pre", Props: x.props, Reach: st.reach, Goal: g, Src: "requires " + cl.Text}
+			props := x.props
+			if len(cl.Props) > 0 {
+				props = cl.Props
+			}
+			o := &Obl{Name: x.prefix + "/pre/" + site + "/" + nm, Kind: "pre", Props: props, Reach: st.reach, Goal: g, Src: "requires " + cl.Text}
 			if in != nil && in.Pos().IsValid() {
 				o.Pos = x.g.fset.Position(in.Pos())
 			}
@@ -368,6 +372,35 @@ func (x *Exec) havocProtected(st *State, md *MonitorDef, sty types.Type, base st
 	}
 }
 
+func (x *Exec) havocProtectedUnlessHeld(st *State, md *MonitorDef, sty types.Type, base string) {
+	vc := x.vc
+	s := sty.Underlying().(*types.Struct)
+	li := -1
+	for i := 0; i < s.NumFields(); i++ {
+		if s.Field(i).Name() == md.Lock {
+			li = i
+		}
+	}
+	if li < 0 {
+		x.havocProtected(st, md, sty, base)
+		return
+	}
+	vc.regComp("Held", "(Array Int Int)")
+	held := not(eq(sel(vc.get(st, "Held"), vc.subRef(sty, li, base)), "0"))
+	before := st.clone()
+	x.havocProtected(st, md, sty, base)
+	// keep the old values where the lock was held
+	for _, fn := range md.Fields {
+		for i := 0; i < s.NumFields(); i++ {
+			if s.Field(i).Name() != fn {
+				continue
+			}
+			h := vc.fieldHeap(sty, i)
+			vc.set(st, h, ite(held, vc.get(before, h), vc.get(st, h)))
+		}
+	}
+}
+
 func (x *Exec) monitorAcquire(st *State, md *MonitorDef, sty types.Type, base string) {
 	// a function that acquires a monitor must say so (`locks <obj>`), so that its callers forget what they knew
 	if x.depth == 0 && x.con != nil {
@@ -381,7 +414,7 @@ func (x *Exec) monitorAcquire(st *State, md *MonitorDef, sty types.Type, base st
 	}
 	x.havocProtected(st, md, sty, base)
 	// the contract of a function that `locks` this object is relative to the acquisition state
-	if x.depth == 0 && x.con != nil && len(x.con.Locks) > 0 && st.entry == x.entry0 {
+	if x.depth == 0 && x.con != nil && len(x.con.Locks) > 0 {
 		snap := st.clone()
 		snap.entry = nil
 		st.entry = snap
@@ -508,8 +541,8 @@ func (x *Exec) callerAcquire(st *State, tgt *target, recv *val, args []val) {
 		if md == nil {
 			panic(contractErr("locks: no monitor declared for " + pt.Elem().String()))
 		}
-		// if this thread already holds the lock (re-entrant use is a bug in Go, but helpers are called with it held) skip
-		x.havocProtected(st, md, pt.Elem(), o.t)
+		// while this thread holds the lock (in either mode) nobody else can have changed the protected fields
+		x.havocProtectedUnlessHeld(st, md, pt.Elem(), o.t)
 	}
 }
 
